@@ -9,12 +9,12 @@ SCHEMES = ["http://", "https://", "", "HTTP://"]
 AUTHS = ["", "User:PaSS@", "u@"]
 HOSTS = ["a.com", "www.a.com", "forum-m.a.com", "a-m.com", "m.com", "www.com", "wwww.a.com", "m2.a.com", "xm.a.com", "amp-a.com",
          "x-amp.a.com", "champ.a.com", "www.m.a.com", "WWW.A.COM", "télérama.fr", "mobile.a.com", "amp.a.com", "a.m.b.com", "www3.a.com",
-         "amp-www.a.com", "xn--tlrama-bvab.fr"]
+         "amp-www.a.com", "xn--tlrama-bvab.fr", "www.", "amp-m.", "[::1]", "notyoutube.com"]
 PORTS = ["", ":80", ":8080", ":443"]
 PATHS = ["", "/", "/index", "/indexes", "/a/index.htmlx", "/default", "/x.amp", "/amp", "/camp", "/x.amp.html", "/amp/x", "/P/Q.html", "/a/",
          "/a/index.html", "/a/./b/../c", "/a//b", "/INDEX.html", "/a/default.aspx", "/a/amp/", "/index.html/", "/a/%41 b", "/a/index.amp"]
 QUERIES = ["", "?x=1", "?b=2&a=1", "?utm_source=x&a=1", "?a=1&utm", "?xutm_source=1", "?sessionidx=1", "?ref=fbx", "?s=123", "?s=12",
-           "?a=1&amp;b=2", "?amp=1", "?amp_x=1&a=1", "?mode=amp", "?mode=ampx", "?A=1&a=1", "?a=%26&b", "?ref=fb&ref=x", "?b&a=&a", "?"]
+           "?a=1&amp;b=2", "?amp=1", "?amp_x=1&a=1", "?mode=amp", "?mode=ampx", "?A=1&a=1", "?a=%26&b", "?ref=fb&ref=x", "?b&a=&a", "?", "?t=12&a=1"]
 FRAGS = ["", "#f", "#/route", "#!", "#!/r", "#/", "#F%41"]
 URL_GRID = grid.Grid("urls", [("scheme", SCHEMES), ("auth", AUTHS), ("host", HOSTS), ("port", PORTS), ("path", PATHS), ("query", QUERIES),
                               ("fragment", FRAGS)])
